@@ -71,7 +71,7 @@ func init() {
 		c.StmtQuick = []string{"spine/heartbeat_manager.go"}
 	})
 	set("C20", func(c *propCfg) { c.StmtThorough = []string{"spine/entity_local.go"} })
-	set("C17", func(c *propCfg) { c.Race = true; c.RaceOnly = false; c.QuickRuns = 1500; c.QuickBudget = 45 })
+	set("C17", func(c *propCfg) { c.Race = true; c.RaceOnly = false; c.QuickRuns = 2000; c.QuickBudget = 45 })
 	set("C11", func(c *propCfg) { c.Race = true; c.QuickRuns = 2500 })
 }
 
